@@ -145,6 +145,8 @@ var c05ErrClasses = []struct {
 	{regexp.MustCompile(`cannot extend service .*: no services section`), "noServices"},
 	{regexp.MustCompile(`cannot extend service .*: service .* not found in `), "notFoundInFile"},
 	{regexp.MustCompile(`cannot extend service .*: service .* not found`), "notFound"},
+	{regexp.MustCompile(`^services\..*\.extends\.service must be a string`), "extendsServiceNotString"},
+	{regexp.MustCompile(`^services\..*\.extends\.file must be a string`), "extendsFileNotString"},
 	{regexp.MustCompile(`^services must be a mapping`), "servicesNotMapping"},
 	{regexp.MustCompile(`^services\..* must be a mapping`), "serviceNotMapping"},
 	{regexp.MustCompile(`cannot override `), "cannotOverride"},
